@@ -355,7 +355,8 @@ Definition item_step (s : tstore) (it : item) : tstore :=
       let s := match t_pending s with Some _ => add_err E_INTER s | None => s end in
       match it with
       | ISave => set_cursor (t_cursor s) (Some (t_cursor s)) s
-      | IRestore => set_cursor (match t_saved s with Some c => c | None => None end) (t_saved s) s
+      (* restoring without a saved cursor puts the cursor home *)
+      | IRestore => set_cursor (match t_saved s with Some c => c | None => Some (0, 0) end) (t_saved s) s
       | IMoveTo r c =>
           (* parameters are 1-based; 0 means 1 *)
           set_cursor (Some (N.pred (N.max r 1), N.pred (N.max c 1))) (t_saved s) s
@@ -476,6 +477,9 @@ Definition cur_eqb (a b : option (N * N)) : bool :=
   | _, _ => false
   end.
 
+(* a cursor position outside every terminal (rows and columns are below 65536) *)
+Definition CUR_SENTINEL : N * N := (4294967296, 4294967296).
+
 Definition with_store (t : track) (s : tstore) : track := mkTrack s (tk_ids t) (tk_sent t) (tk_where t).
 
 (* result of checking one call: the next tracker or a reason code *)
@@ -485,9 +489,13 @@ Definition check_step (contents : list content) (t : track) (o : sop) (bytes : l
   match parse_stream bytes with
   | None => Bad 101                              (* not a sequence of well-formed escape codes *)
   | Some its =>
-      (* an error response may be genuine (the terminal has lost the image: lost = true) or spurious *)
+      (* an error response may be genuine (the terminal has lost the image: lost = true) or spurious.
+         Before a response is handled the cursor is at a position no call can move it to and nothing is
+         saved, so that "the cursor is put back" is observable: restore-without-save ends at home. *)
       let pre := match o with
-                 | SResp id _ true true => store_forget id (clear_log (tk_store t))
+                 | SResp id _ true lost =>
+                     set_cursor (Some CUR_SENTINEL) None
+                       (if lost then store_forget id (clear_log (tk_store t)) else clear_log (tk_store t))
                  | _ => clear_log (tk_store t)
                  end in
       let s' := store_run pre its in
@@ -519,10 +527,18 @@ Definition check_step (contents : list content) (t : track) (o : sop) (bytes : l
                         else match learn_id cid id (tk_ids t) with
                              | None => Bad 106
                              | Some ids' =>
+                                 (* transmitted exactly when not transmitted since the last error response for
+                                    the id -- except that after a spurious error the terminal still holds the
+                                    image: then not sending it again is fine as well *)
+                                 let held := match img_lookup id (t_images pre) with
+                                             | Some im => timage_eqb im c
+                                             | None => false
+                                             end in
                                  let sent_ok :=
                                    if nmem id (tk_sent t) then match t_sent s' with [] => true | _ => false end
                                    else match t_sent s' with
                                         | [(i, im)] => (i =? id) && timage_eqb im c
+                                        | [] => held
                                         | _ => false
                                         end in
                                  if negb sent_ok then Bad (if nmem id (tk_sent t) then 108 else 109)
@@ -535,7 +551,11 @@ Definition check_step (contents : list content) (t : track) (o : sop) (bytes : l
                                                                end)) then Bad 110
                                  else match learn_where id pos pid (tk_where t) with
                                       | None => Bad 113
-                                      | Some w' => Good (mkTrack s' ids' (id :: tk_sent t) w')
+                                      | Some w' =>
+                                          Good (mkTrack s' ids' (match t_sent s' with
+                                                                 | [] => tk_sent t
+                                                                 | _ => id :: tk_sent t
+                                                                 end) w')
                                       end
                              end
                     | _, _ => Bad 111
@@ -612,6 +632,8 @@ Definition check_step (contents : list content) (t : track) (o : sop) (bytes : l
                                           (* where: the cursor position at the time of the placement command *)
                                           match find (fun e => (place_id e =? id) && (place_pid e =? pid)) (t_places s') with
                                           | Some (_, _, Some cp) =>
+                                              if pos_eqb cp CUR_SENTINEL then Bad 137   (* the cursor was not moved *)
+                                              else
                                               if match where_pos id pid (tk_where t) with
                                                  | Some pos => negb (pos_eqb cp pos)      (* where draw had put it *)
                                                  | None => false
